@@ -45,7 +45,44 @@ theorem procTriggered_spawn (s : Sys) (hpw : PW s) (k : PK) (now : Time) :
   rw [this]
   simp
 
-theorem allocTaskBlock_cases (s : Sys) (hpw : PW s) (now : Time) (t : Tid) (m : Mid) (preds : List Tid)
+/-- F13: `now < task.aft` -/
+theorem aftReached_eq_false {s : Sys} {now : Time} {t : Tid} (h : s.aftReached now t = false) :
+    ∃ rec f, s.task? t = some rec ∧ rec.aft = some f ∧ now < f := by
+  unfold aftReached at h
+  cases hr : s.task? t with
+  | none => rw [hr] at h; exact absurd h (by simp)
+  | some rec =>
+    rw [hr] at h
+    simp only at h
+    cases hf : rec.aft with
+    | none => rw [hf] at h; exact absurd h (by simp)
+    | some f =>
+      rw [hf] at h
+      simp only [decide_eq_false_iff_not] at h
+      exact ⟨rec, f, rfl, hf, Rat.not_le.mp h⟩
+
+/-- F13: `now ≥ task.aft` -/
+theorem aftReached_eq_true {s : Sys} {now : Time} {t : Tid} (h : s.aftReached now t = true) :
+    ∀ rec f, s.task? t = some rec → rec.aft = some f → f ≤ now := by
+  intro rec f hr hf
+  unfold aftReached at h
+  rw [hr] at h
+  simp only [hf, decide_eq_true_eq] at h
+  exact h
+
+theorem aftReached_of_le {s : Sys} {now : Time} {t : Tid}
+    (h : ∀ rec f, s.task? t = some rec → rec.aft = some f → f ≤ now) : s.aftReached now t = true := by
+  unfold aftReached
+  cases hr : s.task? t with
+  | none => rfl
+  | some rec =>
+    simp only
+    cases hf : rec.aft with
+    | none => rfl
+    | some f => simp only [decide_eq_true_eq]; exact h rec f hr hf
+
+/-- F13: the full case analysis, with the `now ≥ aft` test of the repaired poller -/
+theorem allocTaskBlock_cases' (s : Sys) (hpw : PW s) (now : Time) (t : Tid) (m : Mid) (preds : List Tid)
     (obs : Option Oid) (ing : Bool) (ret : Nat) :
     (t ∉ s.cl.running ∧ ∃ e, (s.cl.allocBegin t m obs ing).2 = some e ∧
       s.allocTaskBlock now t m preds obs ing ret
@@ -55,12 +92,14 @@ theorem allocTaskBlock_cases (s : Sys) (hpw : PW s) (now : Time) (t : Tid) (m : 
         = (((({ s with cl := (s.cl.allocBegin t m obs ing).1 }).updTask t
               (fun r => { r with status := .scheduled })).spawn (.doWork t m preds 0 0) now).1,
             .allocTask t m preds obs ing s.nextPid, .timeout 1)) ∨
-    (t ∈ s.cl.running ∧ s.procTriggered ret = false ∧
+    (t ∈ s.cl.running ∧ (s.procTriggered ret && s.aftReached now t) = false ∧
       s.allocTaskBlock now t m preds obs ing ret = (s, .allocTask t m preds obs ing ret, .timeout 1)) ∨
-    (t ∈ s.cl.running ∧ s.procTriggered ret = true ∧ ∃ e, (s.cl.allocEnd t m obs ing).2 = some e ∧
+    (t ∈ s.cl.running ∧ (s.procTriggered ret = true ∧ s.aftReached now t = true) ∧
+      ∃ e, (s.cl.allocEnd t m obs ing).2 = some e ∧
       s.allocTaskBlock now t m preds obs ing ret
         = ({ s with cl := (s.cl.allocEnd t m obs ing).1 }, .allocTask t m preds obs ing ret, .raised e)) ∨
-    (t ∈ s.cl.running ∧ s.procTriggered ret = true ∧ (s.cl.allocEnd t m obs ing).2 = none ∧
+    (t ∈ s.cl.running ∧ (s.procTriggered ret = true ∧ s.aftReached now t = true) ∧
+      (s.cl.allocEnd t m obs ing).2 = none ∧
       s.allocTaskBlock now t m preds obs ing ret
         = (({ s with cl := (s.cl.allocEnd t m obs ing).1 }).updTask t
               (fun r => { r with status := .finished }),
@@ -69,16 +108,18 @@ theorem allocTaskBlock_cases (s : Sys) (hpw : PW s) (now : Time) (t : Tid) (m : 
   by_cases hr : t ∈ s.cl.running
   · simp only [hr, not_true_eq_false, if_false]
     right; right
-    cases htr : s.procTriggered ret with
+    cases htr : (s.procTriggered ret && s.aftReached now t) with
     | false => left; exact ⟨trivial, rfl, by simp⟩
     | true =>
       right
+      have htr' : s.procTriggered ret = true ∧ s.aftReached now t = true := by
+        simpa [Bool.and_eq_true] using htr
       simp only [if_true]
       generalize hc : s.cl.allocEnd t m obs ing = r
       obtain ⟨cl1, e1⟩ := r
       cases e1 with
-      | some e => left; exact ⟨trivial, trivial, e, rfl, rfl⟩
-      | none => right; exact ⟨trivial, trivial, rfl, rfl⟩
+      | some e => left; exact ⟨trivial, htr', e, rfl, rfl⟩
+      | none => right; exact ⟨trivial, htr', rfl, rfl⟩
   · simp only [hr, not_false_eq_true, if_true]
     generalize hc : s.cl.allocBegin t m obs ing = r
     obtain ⟨cl1, e1⟩ := r
@@ -96,6 +137,35 @@ theorem allocTaskBlock_cases (s : Sys) (hpw : PW s) (now : Time) (t : Tid) (m : 
           (fun r => { r with status := .scheduled })) ⟨hpw.nodup, hpw.lt⟩ (.doWork t m preds 0 0) now
         simp only [updTask_nextPid] at this
         simp [this]
+
+/-- F13: third case now reads "the body has not ended OR `now < aft`" -/
+theorem allocTaskBlock_cases (s : Sys) (hpw : PW s) (now : Time) (t : Tid) (m : Mid) (preds : List Tid)
+    (obs : Option Oid) (ing : Bool) (ret : Nat) :
+    (t ∉ s.cl.running ∧ ∃ e, (s.cl.allocBegin t m obs ing).2 = some e ∧
+      s.allocTaskBlock now t m preds obs ing ret
+        = ({ s with cl := (s.cl.allocBegin t m obs ing).1 }, .allocTask t m preds obs ing ret, .raised e)) ∨
+    (t ∉ s.cl.running ∧ (s.cl.allocBegin t m obs ing).2 = none ∧
+      s.allocTaskBlock now t m preds obs ing ret
+        = (((({ s with cl := (s.cl.allocBegin t m obs ing).1 }).updTask t
+              (fun r => { r with status := .scheduled })).spawn (.doWork t m preds 0 0) now).1,
+            .allocTask t m preds obs ing s.nextPid, .timeout 1)) ∨
+    (t ∈ s.cl.running ∧ (s.procTriggered ret && s.aftReached now t) = false ∧
+      s.allocTaskBlock now t m preds obs ing ret = (s, .allocTask t m preds obs ing ret, .timeout 1)) ∨
+    (t ∈ s.cl.running ∧ s.procTriggered ret = true ∧ ∃ e, (s.cl.allocEnd t m obs ing).2 = some e ∧
+      s.allocTaskBlock now t m preds obs ing ret
+        = ({ s with cl := (s.cl.allocEnd t m obs ing).1 }, .allocTask t m preds obs ing ret, .raised e)) ∨
+    (t ∈ s.cl.running ∧ s.procTriggered ret = true ∧ (s.cl.allocEnd t m obs ing).2 = none ∧
+      s.allocTaskBlock now t m preds obs ing ret
+        = (({ s with cl := (s.cl.allocEnd t m obs ing).1 }).updTask t
+              (fun r => { r with status := .finished }),
+            .allocTask t m preds obs ing ret, .done)) := by
+  rcases allocTaskBlock_cases' s hpw now t m preds obs ing ret with
+    h | h | h | ⟨hr, ⟨htr, _⟩, h⟩ | ⟨hr, ⟨htr, _⟩, h⟩
+  · exact Or.inl h
+  · exact Or.inr (Or.inl h)
+  · exact Or.inr (Or.inr (Or.inl h))
+  · exact Or.inr (Or.inr (Or.inr (Or.inl ⟨hr, htr, h⟩)))
+  · exact Or.inr (Or.inr (Or.inr (Or.inr ⟨hr, htr, h⟩)))
 
 /-! ### replacing the entry of an allocation process -/
 
